@@ -52,13 +52,16 @@ D14 == DL(<<[t |-> "int", v |-> 2], [t |-> "int", v |-> 3]>>)
 \*      { o { s } o { sn } }   with the resolver of sn answering null (sn: String!): the error carries the locations of the merged nodes
 D15 == << N("OP", 0, "", "query"), N("F", 1, "o", ""), N("F", 2, "s", ""), N("F", 1, "o", ""), N("F", 4, "sn", "") >>
 
+\* D16: a named fragment spread directly in the operation's root selection set   { ...F }  fragment F on Query { s i }
+D16 == << N("OP", 0, "", "query"), N("S", 1, "F", ""), [N("FRAG", 0, "F", "") EXCEPT !.cond = "Query"], N("F", 3, "s", ""), N("F", 3, "i", "") >>
+
 DocsStd == [ D1 |-> [class |-> "valid", nodes |-> D1], D2 |-> [class |-> "valid", nodes |-> D2],
              D3 |-> [class |-> "invalid", nodes |-> D3], D4 |-> [class |-> "broken", nodes |-> D4],
              D5 |-> [class |-> "valid", nodes |-> D5], D6 |-> [class |-> "valid", nodes |-> D6],
              D7 |-> [class |-> "invalid", nodes |-> D7], D8 |-> [class |-> "invalid", nodes |-> D8],
              D9 |-> [class |-> "valid", nodes |-> D9], D10 |-> [class |-> "valid", nodes |-> D10], D11 |-> [class |-> "invalid", nodes |-> D11],
              D12 |-> [class |-> "valid", nodes |-> D12], D13 |-> [class |-> "valid", nodes |-> D13], D14 |-> [class |-> "valid", nodes |-> D14],
-             D15 |-> [class |-> "valid", nodes |-> D15] ]
+             D15 |-> [class |-> "valid", nodes |-> D15], D16 |-> [class |-> "valid", nodes |-> D16] ]
 
 Rq(d, sp, opn, g) == [doc |-> d, spelling |-> sp, opName |-> opn, given |-> g]
 PoolStd == { Rq("D1", "str", "A", <<>>), Rq("D1", "str", "B", <<>>), Rq("D1", "bytes", "A", <<>>), Rq("D1", "str", "", <<>>),
@@ -72,7 +75,7 @@ PoolEnv == PoolStd \cup { Rq("D2", "str", "", [v |-> Bool(TRUE), extra |-> Int(1
                           Rq("D3", "bytes", "A", <<>>), Rq("D4", "str", "A", [v |-> Bool(TRUE)]) }
 \* history-sensitive documents: widening fragment then the other implementer; invalid documents of several rules, repeated
 PoolHist == { Rq("D9", "str", "", <<>>), Rq("D10", "str", "", <<>>), Rq("D11", "str", "A", <<>>), Rq("D11", "bytes", "A", <<>>),
-              Rq("D7", "str", "", <<>>), Rq("D3", "str", "", <<>>), [doc |-> "D15", spelling |-> "str", opName |-> "", given |-> <<>>, overlay |-> (<<"o", "sn">> :> [o |-> "null"])],
+              Rq("D16", "str", "", <<>>), Rq("D3", "str", "", <<>>), [doc |-> "D15", spelling |-> "str", opName |-> "", given |-> <<>>, overlay |-> (<<"o", "sn">> :> [o |-> "null"])],
               Rq("D12", "str", "", [z |-> Str("XLARGE")]), Rq("D12", "str", "", [z |-> Str("XLARG")]),
               Rq("D13", "str", "", <<>>), Rq("D14", "str", "", <<>>) }
 PoolSmall == { Rq("D1", "str", "A", <<>>), Rq("D1", "bytes", "B", <<>>), Rq("D2", "str", "", [v |-> Bool(TRUE)]), Rq("D2", "str", "", [v |-> Bool(FALSE)]),
